@@ -184,6 +184,24 @@ def _mem_var(case, v):
 
 @matcher("mem_nan_reduction_mask_temporaries")
 def _mem_nanred(case, v):
-    """nan-reductions build NaN masks / replaced copies of the whole chunk in their first round."""
-    return (v.get("cls") == "task_exceeds_projected_mem" and not v.get("fused")
-            and str(v.get("func", "")).startswith("nan") and v.get("ratio", 9) < 1.2)
+    """nan-reductions build NaN masks / replaced copies of the whole chunk in their first round: visible when the
+    chunk is only 1-2 elements thick along a reduced axis (the reduced chunk is then as large as the input chunk);
+    1.05x for 2-thick float32 chunks, 1.26x for 1-thick float32 chunks (intermediates are int64 + float64)."""
+    if not (v.get("cls") == "task_exceeds_projected_mem" and not v.get("fused")
+            and str(v.get("func", "")).startswith("nan")):
+        return False
+    r = v.get("ratio", 9)
+    if r < 1.2:
+        return True
+    if r >= 1.35:
+        return False
+    prog = case["prog"]
+    for st in prog["steps"]:
+        if st["op"] != "nanred" or st["args"][0] >= len(prog["inputs"]):
+            continue
+        inp = prog["inputs"][st["args"][0]]
+        ax = st["p"].get("axis")
+        axes = range(len(inp["shape"])) if ax is None else ([ax] if isinstance(ax, int) else list(ax))
+        if any(inp["chunks"][a % len(inp["shape"])] <= 1 for a in axes if len(inp["shape"])):
+            return True
+    return False
